@@ -8,10 +8,6 @@ listed finding is still printed as KNOWN-FINDING.  Keys are (rule id, key prefix
 
 SHAPE_KEYS: set[tuple[str, str]] = {
     ("C01.R3", "store"),
-    ("C06.R3b", "unverified-digits"),
-    ("C06.R3", "g-form-unguarded"),
-    ("C06.R3", "lossless-check-missing"),
-    ("C06.R3", "nan-inf-form"),
     ("C07.R3", "assert"),
     ("C09.R2", "base-mismatch"),
     ("C09.R2", "merge-bookkeeping"),
